@@ -113,12 +113,19 @@ def check_props(pid: str, tier: str = "quick") -> dict:
         # obligations: named statements of the cone; discharged where the .vo was produced by this build
         obligations = 0
         discharged = 0
+        # when the build failed: the files named in Coq's error messages, and everything that depends on one of them, are not
+        # discharged even where a .vo of an earlier build is still lying around
+        failed_files = set()
+        if not build_ok:
+            for fn in re.findall(r'File "\./(theories/[^"]+\.v)"', out):
+                failed_files.add((COQ / fn).resolve())
         for f in files:
             src = _strip_comments(f.read_text())
             names = STMT.findall(src)
             obligations += len(names)
             vo = f.with_suffix(".vo")
-            if vo.exists() and vo.stat().st_mtime >= f.stat().st_mtime:
+            tainted = bool(failed_files) and any(g.resolve() in failed_files for g in cone_of(f))
+            if vo.exists() and vo.stat().st_mtime >= f.stat().st_mtime and not tainted:
                 discharged += len(names)
             if f == props:
                 res["theorems"] = [n for _, n in names]
